@@ -165,6 +165,11 @@ def r19c(F):
 		else:
 			out += P5_must_pass(F, '19.c', c, rm, oks, sy, 'sync_all() of the parent directory after a non-lazy remove')
 			out += guarded_by_call(F, '19.c', c.name, set(oks) & c.reach(rm), ['File::sync_all'], 'result', True, mode='fail-blocks')
+	# no return of remove_version / Ok return of write_version bypasses the versioned write lock
+	out += P5_must_pass(F, '19.c', rv, [0], rv.return_blocks(), set(lw), 'execute_locked_write (a remove must always record its version)')
+	wv = F.func(FS + 'write_version')
+	out += P5_must_pass(F, '19.c', wv, [0], [b for b in wv.return_blocks() if b in wv.reach(sites_call(wv, ['File::create']))] or wv.return_blocks(),
+		set(sites_call(wv, ['FilesystemStoreInner::execute_locked_write'])) | set(err_return_blocks(wv)), 'execute_locked_write or an error return')
 	# read runs under the read lock
 	rd = F.func(FS + 'read')
 	lr = sites_call(rd, ['FilesystemStoreInner::execute_locked_read'])
@@ -279,6 +284,29 @@ def r19e(F):
 	if want2 is not None:
 		rm = set(sites_call(want2.fu, ['KVStore::remove']))
 		out += P4_guarded(F, '19.e', want2.fu, rm, want2.decisions, True, 'update id <= latest_update_id')
+	# the deletion bound is the id of the *stored full monitor* (never a monitor with pending updates replayed on top)
+	cs = _async_body(F, PI + 'cleanup_stale_updates')
+	ex = Expr(cs)
+	n = 0
+	for b in sites_call(cs, ['cleanup_stale_updates_for_monitor_to']):
+		n += 1
+		e = ex.of_operand(cs.blocks[b]['t'][2]['args'][2])
+		txt = expr_str(e)
+		ok = 'get_latest_update_id' in txt and 'maybe_read_monitor(' in txt and 'with_updates' not in txt
+		out.append(Result('19.e', ok, ('ok:' if ok else 'shape:') + 'cleanup-bound-source', 'cleanup_stale_updates deletes up to %s (expected get_latest_update_id of the monitor returned by maybe_read_monitor)' % txt[:160], 1, where=F.where(cs.name, cs.line_of(b))))
+	if not n:
+		out.append(Result('19.e', False, 'anchor:cleanup-call', 'cleanup_stale_updates does not call cleanup_stale_updates_for_monitor_to'))
+	out += P1_who_may_call(F, '19.e', [PI + 'maybe_read_channel_monitor_with_updates'],
+		[PI + 'read_channel_monitor_with_updates', 'lightning::util::persist::MonitorUpdatingPersisterAsync::read_all_channel_monitors_with_updates',
+		 'lightning::util::persist::MonitorUpdatingPersisterAsync::read_channel_monitor_with_updates', PI + 'read_all_channel_monitors_with_updates', 'lightning::util::persist::MonitorUpdatingPersisterAsync::read_all_channel_monitors_with_updates_parallel'], floor=1,
+		note='the update-replaying reader must not feed clean-up decisions')
+	up = F.func(PI + 'update_persisted_channel')
+	exu = Expr(up)
+	for l, nm in up.vars.items():
+		if nm == 'latest_update_id':
+			e = exu.of_local(l)
+			ok = e[0] == 'call' and (e[1] or '').endswith('get_latest_update_id') and leaf_key(e[2][0]) == 'monitor'
+			out.append(Result('19.e', ok, ('ok:' if ok else 'shape:') + 'consolidation-bound-source', 'update_persisted_channel cleans up to %s (expected monitor.get_latest_update_id() of the monitor just written)' % expr_str(e), 1, where=F.where(up.name)))
 	# the updates are applied in sorted order
 	for n in F.family(rd):
 		fu = F.func(n)
